@@ -44,11 +44,11 @@ META = {
             "kept 0-dim / shape-(1,) int64 tensors, other systems' clocks; clock (600 quick / 8000 thorough histories): kind lti|ltv|nls x 8-16 events (call, raising call, direct "
             "forward/state_transition/observation, reset, systime=, 1-dim tensor (raises), set_refpoint) x 12 ways of writing a "
             "time (python int/float/negative float/bool/huge int, 0-dim int64/int32/float64/float32 tensors, ladder "
-            "-3..40,1000); lin (700 / 12000): lti | ltv indexed by _t | ltv indexed by _t % T, dims 1..4, 9 batch layouts with "
+            "-3..40,1000); lin (600 / 10000): lti | ltv indexed by _t | ltv indexed by _t % T, dims 1..4, 9 batch layouts with "
             "independently broadcast sub-batches of A,B,C,D,c1,c2,x,u, 0-dim states, optional constants, float64/float32, "
             "magnitudes 1e-3..1e3, 3-8 events with feedback roll-outs, wrong dimensions, slice index out of range; nls "
-            "(650 / 12000): nx 1..3, nu 1..2, trees of depth <= 4 (+ - * neg sin cos pow 0..3, shared sub-trees, time variable), "
-            "4-10 events (call, set_refpoint with x,u None or given and t None | sys.systime | fresh tensor | kept int64 tensor, reset, "
+            "(500 / 9000): nx 1..3, nu 1..2, trees of depth <= 4 (+ - * neg sin cos pow 0..3, shared sub-trees, time variable), "
+            "4-10 events + in-place updates of the caller's tensors, jacargs changes, views (call, set_refpoint with x,u None or given and t None | sys.systime | fresh tensor | kept int64 tensor, reset, "
             "systime= (also from a kept tensor), a second system exchanging times, read); lin histories also get kept-tensor "
             "assignments and a second system; bmv (300 / 6000): bmv, bvv, bvmv on broadcast batches, LieTensor argument, out=. A case is non-trivial "
             "when it contains a completed call or a read, and distinct by (stream, kind, dims, batch layout, dtype, "
@@ -62,6 +62,11 @@ META = {
                     "modelled domain (see notes/C15.md)",
                     "user state_transition / observation are pure functions of (state, input, t) built from + - * sin cos "
                     "and integer powers"],
+    "hardening": "deterministic corner corpora (multi 6, lin 9, bmv 12, nls 6 cases) run first; extreme magnitudes 1e-30..1e8 / 1e40, dims to 7, "
+                 "long roll-outs; mixed-regime batches (zero/tiny/ordinary/large items); layouts (transposed storage, slices of larger buffers "
+                 "with guarded surroundings, stride-0 expansions); the same tensor as two arguments; in-place updates by the caller of matrices, "
+                 "states, reference tensors and kept time tensors between calls; jacargs changed between reads; per-call varied batch shapes and "
+                 "0-dim/1-D states on one object",
     "partial": ["IEEE rounding is not modelled: the float code is compared with the exact model at 64·eps·(sum of "
                 "absolute term magnitudes)",
                 "second-order constant K in nls_second_order is existential (not computed); the harness checks the "
